@@ -385,7 +385,7 @@ func c08Run(cs c08Case, twin bool) *c08Obs {
 }
 
 func checkC08(rep *vk.Report) {
-	rep.Rule = "scenario = composition containing a retry or hedge policy (plus breaker, free or full bulkhead, exhausted rate limiter, fallback outside or inside) x cancellation source (context cancel, context deadline, enclosing Timeout, async ExecutionResult.Cancel) x event-triggered firing point (before the call, on the k-th function entry with the function then blocking, on the k-th OnRetryScheduled i.e. inside a 3s retry delay, at the k-th function exit i.e. between recording and the next attempt, synchronously from the k-th OnFailure or OnRetry listener of the retry policy (also with a never-expiring Timeout inside or outside the retry policy), after a micro delay while waiting for a limiter/bulkhead permit) x sync/async, with yield points between Cancel's two steps and before InitializeRetry perturbed. Each scenario is also run un-cancelled with zero delays (twin). Oracles: result is the cause's error (errors.Is) or exactly the twin's result; no fallback invocation; <=1 function entry after the cancel marker (taken after cancel returned / by a watcher on Done); blocking attempts observe the cancellation; completion earlier than marker + the wait being interrupted (3s delay, 1s limiter, 3s bulkhead). Plus Retry(Hedge(fn)) rounds that really hedge and fail, cancelled (context, context with a custom cause, async Cancel) inside the following 3s retry delay: the caller must get the cause. Plus a high-volume stress without yield hooks: Cancel at PRNG instants on endlessly retrying async executions must always give ErrExecutionCanceled. Non-trivial: the cancellation landed before completion; distinct by (composition, source, trigger, k, async, where it landed)."
+	rep.Rule = "scenario = composition containing a retry or hedge policy (plus breaker, free or full bulkhead, exhausted rate limiter, fallback outside or inside) x cancellation source (context cancel, context deadline, enclosing Timeout, async ExecutionResult.Cancel) x event-triggered firing point (before the call, on the k-th function entry with the function then blocking, on the k-th OnRetryScheduled i.e. inside a 3s retry delay, at the k-th function exit i.e. between recording and the next attempt, synchronously from the k-th OnFailure or OnRetry listener of the retry policy (also with a never-expiring Timeout inside or outside the retry policy), after a micro delay while waiting for a limiter/bulkhead permit) x sync/async, with yield points between Cancel's two steps and before InitializeRetry perturbed. Each scenario is also run un-cancelled with zero delays (twin). Oracles: result is the cause's error (errors.Is) or exactly the twin's result; no fallback invocation; <=1 function entry after the cancel marker (taken after cancel returned / by a watcher on Done); blocking attempts observe the cancellation; completion earlier than marker + the wait being interrupted (3s delay, 1s limiter, 3s bulkhead). Plus Retry(Hedge(fn)) rounds that really hedge and fail, cancelled (context, context with a custom cause, async Cancel) inside the following 3s retry delay: the caller must get the cause. Plus Retry(Timeout(fn)) whose first attempt times out and is retried, cancelled while the second attempt runs within its limit: the caller gets the cancellation's cause, not the earlier ErrExceeded. Plus a high-volume stress without yield hooks: Cancel at PRNG instants on endlessly retrying async executions must always give ErrExecutionCanceled. Non-trivial: the cancellation landed before completion; distinct by (composition, source, trigger, k, async, where it landed)."
 	rep.Assumptions = []string{
 		"the cancel marker is never earlier than the true cancellation instant, so counting later function entries cannot over-count",
 		"promptness is judged only against the configured waits: completion >= marker + wait is a violation, between half and full is inconclusive",
@@ -407,10 +407,16 @@ func checkC08(rep *vk.Report) {
 		}
 		c08AfterHedgedRound(rep, 1000000+idx)
 	})
+	vk.Parallel(scale(rep, 300, 15000), 32, func(idx int) {
+		if rep.Skip(2000000 + idx) {
+			return
+		}
+		c08AfterTimedOutAttempt(rep, 2000000+idx, "C08")
+	})
 	failsafe.VerifSetYield(nil)
 	cancelStress(rep, "C08", 50000000, scale(rep, 30000, 500000))
 	reportYields(rep)
-	for _, cl := range []string{"landed_inside_function", "landed_in_retry_delay", "landed_in_policy_wait", "landed_at_function_exit", "landed_in_failure_listener", "landed_after_completion", "landed_before_start", "landed_in_retry_listener", "cancelled_in_retry_delay_after_hedged_round"} {
+	for _, cl := range []string{"landed_inside_function", "landed_in_retry_delay", "landed_in_policy_wait", "landed_at_function_exit", "landed_in_failure_listener", "landed_after_completion", "landed_before_start", "landed_in_retry_listener", "cancelled_in_retry_delay_after_hedged_round", "cancelled_in_attempt_after_timed_out_attempt"} {
 		rep.Require(cl, 10)
 	}
 }
